@@ -356,9 +356,8 @@ def _do_run(check, check_mod, pool, tier, seed, t_start, max_cases, nworkers, ti
                 if od2.get('error') or outcome_digest(od2) != outcome_digest(results[od2['index']]):
                     det_mismatch += 1
                     say('determinism mismatch at case %d' % od2['index'])
-    if det_mismatch:
-        print('HARNESS NONDETERMINISM: %d of %d re-run cases differed; no verdict' % (det_mismatch, det_checked))
-        return 2
+    # (a mismatch is reported below: as "no verdict" unless reproducible violations were found as well, in which
+    # case the program under test, not the harness, is the likely source and the violations stand on their own gate)
 
     # -------- aggregate
     agg = Outcome()
@@ -509,7 +508,13 @@ def _do_run(check, check_mod, pool, tier, seed, t_start, max_cases, nworkers, ti
         print('skipped: ' + ', '.join('%s=%d' % kv for kv in sorted(agg.skipped.items())))
     for f, vmin, c, rpath in known_hits:
         print('KNOWN-FINDING: property=%s %s (%d cases; e.g. %s)' % (check.id, f.get('what'), c, vmin['explain']))
-    if nondet:
+    if det_mismatch and not new_violations:
+        print('HARNESS NONDETERMINISM: %d of %d re-run cases differed; no verdict' % (det_mismatch, det_checked))
+        return 2
+    if det_mismatch:
+        print('note: %d of %d re-run cases differed between two executions of the same plan; since gated, replayed violations '
+              'were found as well, the program under test is the likely source' % (det_mismatch, det_checked))
+    if nondet and not new_violations:
         print('HARNESS NONDETERMINISM: a candidate violation did not reproduce; no verdict')
         return 2
     for key, v, c in unprocessed:
